@@ -694,10 +694,66 @@ def _inline_require_helpers(tree):
             node.body = rewrite(node.body)
 
 
+def _attr_local_aliases(tree):
+    """C9.  `buf = self.buf` as a top-level statement of a method, where
+    `buf` is bound nowhere else in the method and the class assigns
+    `self.buf` only in its constructor: from that statement on, `self.buf`
+    and `buf` are the same value; later loads of the attribute are written
+    as the local (the form the code has before 'turn the functions into a
+    class')."""
+    for cls in [n for n in ast.walk(tree) if isinstance(n, ast.ClassDef)]:
+        stores = {}
+        meths = [m for m in cls.body
+                 if isinstance(m, (ast.FunctionDef, ast.AsyncFunctionDef))]
+        for m in meths:
+            for x in ast.walk(m):
+                if isinstance(x, ast.Attribute) and \
+                        isinstance(x.ctx, (ast.Store, ast.Del)) and \
+                        isinstance(x.value, ast.Name) and x.value.id == "self":
+                    stores.setdefault(x.attr, set()).add(m.name)
+        for m in meths:
+            if m.name == "__init__" or not m.args.args or \
+                    m.args.args[0].arg != "self":
+                continue
+            bound = {}
+            for x in ast.walk(m):
+                if isinstance(x, ast.Name) and isinstance(x.ctx, ast.Store):
+                    bound[x.id] = bound.get(x.id, 0) + 1
+            params = {a.arg for a in m.args.args + m.args.kwonlyargs}
+            for i, st in enumerate(m.body):
+                if not (isinstance(st, ast.Assign) and len(st.targets) == 1
+                        and isinstance(st.targets[0], ast.Name)
+                        and isinstance(st.value, ast.Attribute)
+                        and isinstance(st.value.value, ast.Name)
+                        and st.value.value.id == "self"):
+                    continue
+                loc, attr = st.targets[0].id, st.value.attr
+                if bound.get(loc, 0) != 1 or loc in params or \
+                        not stores.get(attr, set()) <= {"__init__"}:
+                    continue
+                # nested functions binding the same name would shadow it
+                if any(isinstance(y, (ast.FunctionDef, ast.Lambda)) and any(
+                        a.arg == loc for a in y.args.args)
+                        for y in ast.walk(m) if y is not m):
+                    continue
+
+                class R(ast.NodeTransformer):
+                    def visit_Attribute(self, n):
+                        if isinstance(n.ctx, ast.Load) and \
+                                isinstance(n.value, ast.Name) and \
+                                n.value.id == "self" and n.attr == attr:
+                            return ast.copy_location(
+                                ast.Name(id=loc, ctx=ast.Load()), n)
+                        return self.generic_visit(n)
+                for j in range(i + 1, len(m.body)):
+                    m.body[j] = R().visit(m.body[j])
+
+
 def canonicalise(tree):
     _DebugIf().visit(tree)
     _inline_require_helpers(tree)
     _inline_expr_helpers(tree)
+    _attr_local_aliases(tree)
     _subst_consts(tree)
     for n in ast.walk(tree):
         if isinstance(n, (ast.FunctionDef, ast.AsyncFunctionDef)):
